@@ -62,7 +62,7 @@ func buildSUT(spec vkit.ProviderSpec, store *vkit.Store, wrap ...func(op.Storage
 			continue
 		}
 		if e.Nil {
-			if spec.Router == "legacy" {
+			if serverRouter(spec.Router) {
 				*legacySlot(&legacyEP, name) = nil
 				delete(paths, name)
 			}
@@ -83,7 +83,7 @@ func buildSUT(spec vkit.ProviderSpec, store *vkit.Store, wrap ...func(op.Storage
 		}
 		paths[name] = ep.Relative()
 		*legacySlot(&legacyEP, name) = ep
-		if spec.Router != "legacy" {
+		if !serverRouter(spec.Router) {
 			switch name {
 			case "authorization":
 				opts = append(opts, op.WithCustomAuthEndpoint(ep))
@@ -122,13 +122,35 @@ func buildSUT(spec vkit.ProviderSpec, store *vkit.Store, wrap ...func(op.Storage
 		return nil, err
 	}
 	sut := &vkit.SUT{Spec: spec, Store: store, Provider: p, Paths: paths, Host: "op.example.com"}
-	if spec.Router == "legacy" {
+	switch spec.Router {
+	case "legacy":
 		sut.Handler = op.RegisterLegacyServer(op.NewLegacyServer(p, legacyEP), op.AuthorizeCallbackHandler(p), op.WithFallbackLogger(vkit.DiscardLogger()))
-	} else {
+	case "server":
+		// an application's own op.Server (here: one that delegates everything to a LegacyServer) registered with
+		// op.RegisterServer; the application supplies what RegisterLegacyServer would have added: the issuer interceptor
+		// as middleware and the route of the authorization callback
+		ic := op.NewIssuerInterceptor(p.IssuerFromRequest)
+		inner := op.RegisterServer(ownServer{op.NewLegacyServer(p, legacyEP)}, legacyEP, op.WithHTTPMiddleware(ic.Handler), op.WithFallbackLogger(vkit.DiscardLogger()))
+		cbPath := legacyEP.Authorization.Relative() + "/callback"
+		cb := ic.HandlerFunc(op.AuthorizeCallbackHandler(p))
+		sut.Handler = http.HandlerFunc(func(w http.ResponseWriter, r *http.Request) {
+			if r.URL.Path == cbPath {
+				cb(w, r)
+				return
+			}
+			inner.ServeHTTP(w, r)
+		})
+	default:
 		sut.Handler = p
 	}
 	return sut, nil
 }
+
+// ownServer is an op.Server of a type the library does not know.
+type ownServer struct{ *op.LegacyServer }
+
+// serverRouter: the routers built by op.RegisterServer (endpoints come from the Endpoints value handed to it; nil = disabled).
+func serverRouter(router string) bool { return router == "legacy" || router == "server" }
 
 func legacySlot(e *op.Endpoints, name string) **op.Endpoint {
 	switch name {
